@@ -10,12 +10,26 @@ pub struct Layout {
     pub discriminators: Vec<usize>,
     /// offsets of value-kind bytes
     pub kinds: Vec<usize>,
+    /// arrays (other than byte arrays) and maps with the byte range of every element / entry
+    pub colls: Vec<Coll>,
+}
+
+#[derive(Clone, Debug)]
+pub struct Coll {
+    /// tuple/enum field indices from the root, array elements as `*`, map keys/values as `k`/`v`
+    pub path: String,
+    pub is_map: bool,
+    pub size_off: usize,
+    pub size_len: usize,
+    /// [start, end) of each element body (arrays) or key+value pair (maps)
+    pub elems: Vec<(usize, usize)>,
 }
 
 struct W<'a> {
     b: &'a [u8],
     p: usize,
     out: Layout,
+    path: Vec<String>,
 }
 
 impl<'a> W<'a> {
@@ -70,39 +84,61 @@ impl<'a> W<'a> {
             }
             0x20 => {
                 let ek = self.byte()?;
+                let size_off = self.p;
                 let n = self.size()?;
+                let size_len = self.p - size_off;
                 if ek == 0x07 || ek == 0x02 {
                     return self.skip(n);
                 }
+                let mut elems = vec![];
+                self.path.push("*".into());
                 for _ in 0..n {
+                    let st = self.p;
                     self.body(ek, depth + 1)?;
+                    elems.push((st, self.p));
                 }
+                self.path.pop();
+                self.out.colls.push(Coll { path: self.path.join("."), is_map: false, size_off, size_len, elems });
                 Some(())
             }
             0x21 => {
                 let n = self.size()?;
-                for _ in 0..n {
+                for i in 0..n {
+                    self.path.push(i.to_string());
                     self.value(depth + 1)?;
+                    self.path.pop();
                 }
                 Some(())
             }
             0x22 => {
                 self.out.discriminators.push(self.p);
-                self.byte()?;
+                let d = self.byte()?;
                 let n = self.size()?;
-                for _ in 0..n {
+                for i in 0..n {
+                    self.path.push(format!("e{d}:{i}"));
                     self.value(depth + 1)?;
+                    self.path.pop();
                 }
                 Some(())
             }
             0x23 => {
                 let kk = self.byte()?;
                 let vk = self.byte()?;
+                let size_off = self.p;
                 let n = self.size()?;
+                let size_len = self.p - size_off;
+                let mut elems = vec![];
                 for _ in 0..n {
+                    let st = self.p;
+                    self.path.push("k".into());
                     self.body(kk, depth + 1)?;
+                    self.path.pop();
+                    self.path.push("v".into());
                     self.body(vk, depth + 1)?;
+                    self.path.pop();
+                    elems.push((st, self.p));
                 }
+                self.out.colls.push(Coll { path: self.path.join("."), is_map: true, size_off, size_len, elems });
                 Some(())
             }
             // manifest custom values
@@ -132,7 +168,7 @@ impl<'a> W<'a> {
 
 /// Walks a full payload (prefix byte + one value). None if the walker cannot make sense of it.
 pub fn layout(payload: &[u8]) -> Option<Layout> {
-    let mut w = W { b: payload, p: 1, out: Layout::default() };
+    let mut w = W { b: payload, p: 1, out: Layout::default(), path: vec![] };
     if payload.is_empty() {
         return None;
     }
@@ -155,5 +191,43 @@ pub fn pad_size(payload: &[u8], at: (usize, usize, usize)) -> Option<Vec<u8>> {
     out[last] |= 0x80;
     out.push(0x00);
     out.extend_from_slice(&payload[off + len..]);
+    Some(out)
+}
+
+fn leb(mut n: usize) -> Vec<u8> {
+    let mut out = vec![];
+    loop {
+        let g = (n & 0x7f) as u8;
+        n >>= 7;
+        if n == 0 {
+            out.push(g);
+            return out;
+        }
+        out.push(g | 0x80);
+    }
+}
+
+/// Element / entry `i` of the collection appears twice in a row, the count is raised by one.
+pub fn duplicate_element(payload: &[u8], c: &Coll, i: usize) -> Vec<u8> {
+    let (st, en) = c.elems[i];
+    let mut out = payload[..c.size_off].to_vec();
+    out.extend_from_slice(&leb(c.elems.len() + 1));
+    out.extend_from_slice(&payload[c.size_off + c.size_len..en]);
+    out.extend_from_slice(&payload[st..en]);
+    out.extend_from_slice(&payload[en..]);
+    out
+}
+
+/// Elements / entries `i` and `i + 1` change places (None if they are byte-identical).
+pub fn swap_elements(payload: &[u8], c: &Coll, i: usize) -> Option<Vec<u8>> {
+    let (a0, a1) = c.elems[i];
+    let (b0, b1) = c.elems[i + 1];
+    if payload[a0..a1] == payload[b0..b1] {
+        return None;
+    }
+    let mut out = payload[..a0].to_vec();
+    out.extend_from_slice(&payload[b0..b1]);
+    out.extend_from_slice(&payload[a0..a1]);
+    out.extend_from_slice(&payload[b1..]);
     Some(out)
 }
